@@ -7,6 +7,7 @@ satisfies() must agree with that value for Boolean terms, and for every way of d
 symbols from the assignment the completion rules of the statement must hold.
 """
 from itertools import combinations
+from fractions import Fraction
 import pysmt.operators as op
 from pysmt.environment import Environment, push_env, pop_env
 from pysmt.solvers.eager import EagerModel
@@ -192,8 +193,10 @@ def parts(ctx):
            mid_ops=_names(*B2), top_ops=None, max_new=1, partial=True))
     A(dict(name="lia-d2", profile=lambda e: P.lia_profile(e, consts=(-1, 0, 2), nsyms=1 if q else 2), depth=2,
            shards=32, mid_ops=_le2, top_ops=_le2, dom={INT: (-2, -1, 0, 1, 3)}))
-    A(dict(name="lra-d2", profile=lambda e: P.lra_profile(e, nsyms=1 if q else 2), depth=2,
-           shards=32, mid_ops=_le2, top_ops=_le2))
+    A(dict(name="lra-d2", profile=lambda e: P.lra_profile(e, nsyms=1 if q else 2,
+                                                          consts=(Fraction(-1), Fraction(0), Fraction(2), Fraction(1, 2))
+                                                          if q else (Fraction(-1), Fraction(0), Fraction(1), Fraction(2), Fraction(1, 2))),
+           depth=2, shards=32, mid_ops=_le2, top_ops=_le2))
     A(dict(name="lira-d2", profile=P.lira_profile, depth=2, shards=16, mid_ops=_le2, top_ops=_le2,
            max_new=1 if q else None))
     A(dict(name="arith-d1-partial", profile=lambda e: P.lira_profile(e), depth=1, shards=4, partial=True))
@@ -209,7 +212,8 @@ def parts(ctx):
     A(dict(name="str-d1", profile=lambda e: P.str_profile(e, strs=("", "a", "ab", "12", "-5", " 1")), depth=1,
            shards=16, dom={INT: (-2, -1, 0, 1, 2, 3)}))
     A(dict(name="str-d2", profile=lambda e: P.str_profile(e, strs=("", "ab"), ints=(-1, 0, 1)), depth=2,
-           shards=32, max_new=1, dom={INT: (-1, 0, 1, 2), STRING: ("", "a", "ab", "12")}))
+           shards=32, max_new=1, dom={INT: (-1, 0, 2), STRING: ("", "ab", "12")} if q else
+           {INT: (-1, 0, 1, 2), STRING: ("", "a", "ab", "12")}))
     for nm, i, e_ in (("int-int", INT, INT), ("bv1-bool", ("BV", 1), BOOL), ("bv2-bv2", ("BV", 2), ("BV", 2))):
         A(dict(name="arr-%s-d2" % nm, profile=(lambda i, e_: lambda e: P.arr_profile(e, i, e_))(i, e_),
                depth=2, shards=16, mid_ops=lambda o: o.name != "arrite",
